@@ -1,5 +1,6 @@
 // C01 - a future is resolved exactly once, by exactly one winner
 #include <scn/future.h>
+#include <scn/strings.h>
 #define RUN(name, nthreads, wd, call) if (o.want(name)) { vf::report R("C01", name, o); vf::g_active_report = &R; vf::team T(nthreads, o, wd); call; T.export_hits(R); R.write(); vf::g_active_report = nullptr; }
 int main(int argc, char **argv) {
     vf::opts o(argc, argv);
@@ -7,5 +8,6 @@ int main(int argc, char **argv) {
     RUN("promise_history", 1, true, scn::promise_history(o, R, o.cases / 4 + 1));
     RUN("promise_default_history", 1, true, scn::promise_default_history(o, R, o.cases / 4 + 1));
     RUN("future_mt", o.threads, true, scn::future_mt(o, R, T, o.cases, scn::FUT_C01));
+    RUN("future_string_values", 1, true, scn::future_string_values(o, R, o.cases));
     return 0;
 }
